@@ -9,6 +9,7 @@ performs partition it)."""
 from ..interp import Obj, Sym, View, _Ref, VarPlace
 from ..build import AnalysisBroken
 from .. import lib_c11 as L
+import re as _re
 
 TU = 'tokenize.c'
 UU = 'unicode.c'
@@ -159,8 +160,8 @@ def _path_holds(ctx, lo, hi):
 def r111(P, u, rep):
     fn = 'convert_pp_int'
     _need(u, fn)
-    rep.rule('R11.1', 'integer constants get the type of C11 6.4.4.1p5 (LP64) for every base x suffix x magnitude class, keep their value, and hand exactly their digits to an unsigned 64-bit conversion', floor=60)
-    rep.rule('R11.2', 'exactly the integer suffixes of C11 6.4.4.1 are accepted (u l ul lu ll ull llu in the case variants, not lL), anything else makes convert_pp_int decline', floor=30)
+    rep.rule('R11.1', 'integer constants get the type of C11 6.4.4.1p5 (LP64) for every base x suffix x magnitude class, keep their value, and hand exactly their digits to an unsigned 64-bit conversion', floor=68)
+    rep.rule('R11.2', 'exactly the integer suffixes of C11 6.4.4.1 are accepted (u l ul lu ll ull llu in the case variants, not lL), anything else makes convert_pp_int decline', floor=38)
     where = _where(u, fn)
     tk_num = u.enums.get('TK_NUM')
     if tk_num is None:
@@ -297,7 +298,7 @@ def _escape(P, u, text):
 def r113(P, u, rep):
     fn = 'read_escaped_char'
     _need(u, fn)
-    rep.rule('R11.3', 'escape sequences: every simple escape of C11 6.4.4.4 (+ GNU \\e) yields its code of C11 5.2.2, octal escapes read at most three octal digits, hexadecimal escapes read all hex digits; each consumes exactly its own characters', floor=20)
+    rep.rule('R11.3', 'escape sequences: every simple escape of C11 6.4.4.4 (+ GNU \\e) yields its code of C11 5.2.2, octal escapes read at most three octal digits, hexadecimal escapes read all hex digits; each consumes exactly its own characters', floor=25)
     where = _where(u, fn)
     for ch, code in sorted(SIMPLE_ESC.items()):
         r = _escape(P, u, ch + 'Z"')
@@ -379,7 +380,7 @@ def _decode(P, uu, bs):
 def r114(P, rep):
     uu = P.unit(UU)
     _need(uu, 'encode_utf8', 'decode_utf8')
-    rep.rule('R11.4', 'UTF-8 codec equals the RFC 3629 table: length-class bounds, lead markers, payload shifts and masks of encode_utf8; lead thresholds, masks and continuation check of decode_utf8; decoder inverts encoder', floor=16)
+    rep.rule('R11.4', 'UTF-8 codec equals the RFC 3629 table: length-class bounds, lead markers, payload shifts and masks of encode_utf8; lead thresholds, masks and continuation check of decode_utf8; decoder inverts encoder', floor=19)
     we, wd = _where(uu, 'encode_utf8'), _where(uu, 'decode_utf8')
     enc = {n: [True, ''] for n, _, _ in UTF8_CLASSES}
     dec = {n: [True, ''] for n, _, _ in UTF8_CLASSES}
@@ -529,7 +530,7 @@ def check_string(P, u, src, base, units, via_file=False):
 def r115(P, u, rep):
     fn = 'read_utf16_string_literal'
     _need(u, fn, 'tokenize')
-    rep.rule('R11.5', 'u"..." literals are UTF-16: code points below 0x10000 are one unit, all others the surrogate pair 0xD800+(c-0x10000>>10), 0xDC00+(c-0x10000&0x3FF); escapes are one unit', floor=4)
+    rep.rule('R11.5', 'u"..." literals are UTF-16: code points below 0x10000 are one unit, all others the surrogate pair 0xD800+(c-0x10000>>10), 0xDC00+(c-0x10000&0x3FF); escapes are one unit', floor=5)
     where = _where(u, fn)
     groups = [('bmp-one-unit', [0x41, 0xE9, 0x7FF, 0x800, 0xD7FF, 0xE000, 0xFFFD]),
               ('supplementary-threshold', [0xFFFF, 0x10000, 0x10001]),
@@ -557,7 +558,7 @@ def r115(P, u, rep):
 def r116(P, u, rep):
     fn = 'tokenize'
     _need(u, fn)
-    rep.rule('R11.6', 'literal prefixes: "" and u8"" are char arrays of the UTF-8 bytes, u"" UTF-16 unsigned short, U"" unsigned int, L"" int; \'\' is int narrowed through char, u\'\' 16-bit unsigned short, U\'\' unsigned int, L\'\' int; a prefix directly followed by a quote is never scanned as an identifier', floor=14)
+    rep.rule('R11.6', 'literal prefixes: "" and u8"" are char arrays of the UTF-8 bytes, u"" UTF-16 unsigned short, U"" unsigned int, L"" int; \'\' is int narrowed through char, u\'\' 16-bit unsigned short, U\'\' unsigned int, L\'\' int; a prefix directly followed by a quote is never scanned as an identifier', floor=25)
     where = _where(u, fn)
     sushi = 0x1F363
     strs = [('none', '"a\u00e9"', CHAR, [0x61, 0xC3, 0xA9]), ('u8', 'u8"a\u00e9"', CHAR, [0x61, 0xC3, 0xA9]),
@@ -601,7 +602,7 @@ def r116(P, u, rep):
 def r117(P, u, rep):
     fn = 'tokenize_file'
     _need(u, fn, 'tokenize')
-    rep.rule('R11.7', 'source normalisation happens in the order of C11 5.1.1.2: BOM skipped, CR/CRLF made LF, then backslash-newline spliced, then universal character names replaced, then tokens formed', floor=8)
+    rep.rule('R11.7', 'source normalisation happens in the order of C11 5.1.1.2: BOM skipped, CR/CRLF made LF, then backslash-newline spliced, then universal character names replaced, then tokens formed', floor=14)
     where = _where(u, fn)
     BOM = b'\xef\xbb\xbf'
     cases = [
@@ -647,7 +648,7 @@ def r118(P, u, rep):
     fn = 'join_adjacent_string_literals'
     _need(pu, fn)
     _need(u, 'tokenize')
-    rep.rule('R11.8', 'adjacent string literals: narrow literals next to a prefixed one are re-read in its encoding, the joined array has sum(len-1)+1 elements of the common element type, runs are joined separately, and u8 next to u/U/L is diagnosed (C11 6.4.5p2, p5)', floor=12)
+    rep.rule('R11.8', 'adjacent string literals: narrow literals next to a prefixed one are re-read in its encoding, the joined array has sum(len-1)+1 elements of the common element type, runs are joined separately, and u8 next to u/U/L is diagnosed (C11 6.4.5p2, p5)', floor=24)
     where = _where(pu, fn)
     sushi = 0x1F363
     cases = [
@@ -727,7 +728,7 @@ def ppnumber_len(s):
 
 def r119(P, u, rep):
     fn = 'tokenize'
-    rep.rule('R11.9', 'the pp-number scanner follows C11 6.4.8: digits, letters and periods continue the number, a sign only directly after e E p P', floor=10)
+    rep.rule('R11.9', 'the pp-number scanner follows C11 6.4.8: digits, letters and periods continue the number, a sign only directly after e E p P', floor=12)
     where = _where(u, fn)
     groups = [
         ('sign-after-e', ['1e+5', '1e-5', '1.5e+3;', '0e-0', '1e+']), ('sign-after-E', ['1E+5', '1E-5', '2.E-1']),
@@ -759,7 +760,6 @@ def r119(P, u, rep):
 
 
 # ============================================================================ R11.10 ===
-import re as _re
 _FLOAT_RE = _re.compile(r'^((([0-9]*\.[0-9]+|[0-9]+\.)([eE][+-]?[0-9]+)?|[0-9]+[eE][+-]?[0-9]+)|0[xX]([0-9a-fA-F]*\.[0-9a-fA-F]+|[0-9a-fA-F]+\.?)[pP][+-]?[0-9]+)([fFlL]?)$')
 DOUBLE, FLOAT, LDOUBLE = ('TY_DOUBLE', 8, 0), ('TY_FLOAT', 4, 0), ('TY_LDOUBLE', 16, 0)
 
@@ -840,7 +840,7 @@ def _precision_chain(u, fn, expr, seen, problems, depth=0):
 def r1110(P, u, rep):
     fn = 'convert_pp_number'
     _need(u, fn, 'convert_pp_int')
-    rep.rule('R11.10', 'floating constants: the value is produced by strtold and reaches Token.fval through long double only; suffix f/F, l/L, none select float, long double, double; a pp-number that is neither an integer nor a floating constant of C11 6.4.4.2 is diagnosed', floor=14)
+    rep.rule('R11.10', 'floating constants: the value is produced by strtold and reaches Token.fval through long double only; suffix f/F, l/L, none select float, long double, double; a pp-number that is neither an integer nor a floating constant of C11 6.4.4.2 is diagnosed', floor=16)
     where = _where(u, fn)
     # (a) typed data-flow check on the AST
     tokrec = u.records.get('Token') or []
@@ -938,7 +938,7 @@ def r1110(P, u, rep):
         rep.ob('R11.10', '%s:%s:%s-diagnosed' % (TU, fn, name), ok, msg, where=where)
     # integers take the integer path, not strtold
     ok, msg = True, ''
-    for text in ('0', '7', '0x1f', '017', '0b101', '1u', '0xe', '0xep1' * 0 + '0x1F'):
+    for text in ('0', '7', '0x1f', '017', '0b101', '1u', '0xe', '0x1F'):
         it, ctx, out, t = conv(text)
         got = L.type_sig(it, t.fields.get('ty', 0))
         if (out[0] != 'ret' or [e for e in ctx.events if e[0] == 'strtofloat'] or got not in TYN) and ok:
